@@ -150,6 +150,16 @@ def _migrate_csv_to_rules(csv_file: str, config_dir: str, backup: bool = True) -
         return False
 
 
+def load_rules_or_exit(merchants_file, rule_mode='first_match'):
+    """get_all_rules(), but a .rules file that does not parse is an error, not an empty rule set."""
+    from .merchant_engine import MerchantParseError
+    try:
+        return get_all_rules(merchants_file, match_mode=rule_mode)
+    except MerchantParseError as e:
+        print(f"Error: cannot load {merchants_file}: {e}", file=sys.stderr)
+        sys.exit(1)
+
+
 def _check_merchant_migration(config: dict, config_dir: str, quiet: bool = False, migrate: bool = False) -> list:
     """
     Check if merchant rules should be migrated from CSV to .rules format.
@@ -234,7 +244,7 @@ def _check_merchant_migration(config: dict, config_dir: str, quiet: bool = False
 
     # New .rules format
     if merchants_format == 'new':
-        rules = get_all_rules(merchants_file, match_mode=rule_mode)
+        rules = load_rules_or_exit(merchants_file, rule_mode)
         if not quiet:
             print(f"Loaded {len(rules)} categorization rules from {merchants_file}")
             if len(rules) == 0:
